@@ -34,17 +34,27 @@ Proof.
   - right. left. eauto.
 Qed.
 
+Lemma pcr_offset_force s : snd (pcr_offset s true) = true.
+Proof.
+  unfold pcr_offset. destruct (operand_left (s_operand s)) as [[t|v]|]; try reflexivity.
+  destruct v; try reflexivity. destruct addr; try reflexivity.
+  destruct (const_offset _); reflexivity.
+Qed.
+
 Lemma determine_cases ss k force s r :
   determine ss k force s = r ->
   (exists s', r = Ok s' /\ (s' = s \/ s_fixed s' = true) /\ (force = true -> s_fixed s' = true))
   \/ (exists c, r = Diag c) \/ (exists c, r = Internal c).
 Proof.
   unfold determine. intros <-. destruct (pcr_span ss k s) as [[backward mn] mx].
-  destruct (_ && _).
+  pose proof (pcr_offset_force s) as Hforce.
+  destruct (pcr_offset s force) as [off force'] eqn:Eo.
+  destruct (_ && negb force').
   - destruct (pcr_pick_cases s 0%nat 1 2) as [[s' [-> Hf]] | [[c ->] | [c ->]]]; [left; exists s'; auto | right; left; eauto | right; right; eauto].
-  - destruct (force || _) eqn:Ef.
+  - destruct (force' || _ || _) eqn:Ef.
     + destruct (pcr_pick_cases s 1%nat 2 4) as [[s' [-> Hf]] | [[c ->] | [c ->]]]; [left; exists s'; auto | right; left; eauto | right; right; eauto].
-    + left. exists s. split; [reflexivity|]. split; [now left|]. intros ->. discriminate.
+    + left. exists s. split; [reflexivity|]. split; [now left|]. intros ->.
+      rewrite Eo in Hforce. cbn [snd] in Hforce. subst force'. discriminate.
 Qed.
 
 (* ---- update_nth ---- *)
